@@ -37,14 +37,9 @@ func jobs(ctx *vrun.Ctx) []*job {
 	if !ctx.Thorough {
 		hs.FaultSeqs = seqRange(0, 4) // handshake units; packet faults are covered by stream-graph
 	}
-	js = append(js, &job{name: "hs-graph", p: hs, mode: "graph", maxPaths: pick(2400, 0)})
-
-	// every pair of garbage-length classes without faults, every edge
-	nf := base()
-	nf.MaxFaults = 0
-	nf.TrackNonces = false
-	nf.Scenarios = allGarbagePairs(seed)
-	js = append(js, &job{name: "hs-nofault", p: nf, mode: "graph"})
+	// ... plus every pair of garbage-length classes without faults
+	hs.Scenarios = append(hs.Scenarios, allGarbagePairs(seed)...)
+	js = append(js, &job{name: "hs-graph", p: hs, mode: "graph", maxPaths: pick(3600, 0)})
 
 	// stream graph: both directions, ignore flags, rekey interval 3, one fault.
 	sg := base()
@@ -87,7 +82,9 @@ func jobs(ctx *vrun.Ctx) []*job {
 	} else {
 		hc.GarbageLens, hc.Decoys, hc.PMs = []int{0, 1, 4095}, []int{0, 1}, []int{0, 15}
 	}
-	js = append(js, &job{name: "hs-check", p: hc, mode: "check", coverage: ctx.Thorough, timeout: 25 * time.Minute})
+	if ctx.Thorough { // quick: the hs-graph run checks the invariants on its own scenarios
+		js = append(js, &job{name: "hs-check", p: hc, mode: "check", coverage: true, timeout: 25 * time.Minute})
+	}
 
 	if ctx.Thorough {
 		// both directions active with two faults
@@ -126,7 +123,7 @@ func jobs(ctx *vrun.Ctx) []*job {
 	big.Sizes = []int{0, 65536, 16777215}
 	big.MaxApp, big.MaxFlight, big.MaxFaults = 2, 2, 0
 	big.Scenarios = []scen{{gI: 1, gR: 0, dI: 0, dR: 1, hello: "v2"}}
-	js = append(js, &job{name: "big", p: big, mode: "graph", maxPaths: pick(4, 40)})
+	js = append(js, &job{name: "big", p: big, mode: "graph", maxPaths: pick(3, 40)})
 	return js
 }
 
